@@ -79,6 +79,10 @@ Disjoint == \A x, y \in writes : x # y => (x.off + x.len <= y.off \/ y.off + y.l
 Covered == UNION {x.off..(x.off + x.len - 1) : x \in writes}
 Tiling == Done => /\ Covered = 0..(cap - 1)
                   /\ cap = HdrLen + cfg.n * RowLen
+\* the same fact without building the byte set (used on traces of large files): given InBounds and Disjoint, the writes tile
+\* the file exactly when their lengths add up to its size; CoveredIffTotal is checked by TLC on the small configurations
+TotalLen == (IF \E x \in writes : x.n < 0 THEN HdrLen ELSE 0) + RowLen * Cardinality({x \in writes : x.n >= 0})
+CoveredIffTotal == (InBounds /\ Disjoint) => ((Covered = 0..(cap - 1)) <=> (TotalLen = cap))
 \* C05: the row of record n sits at position n whatever the interleaving
 RowOrder == \A x \in writes : x.n >= 0 => x.off = HdrLen + RowLen * x.n
 EachOnce == Done => \A i \in 0..(cfg.n - 1) : Cardinality({x \in writes : x.n = i}) = 1
